@@ -205,7 +205,9 @@ class Result(object):
 
     def canon(self):
         if self.exc is not None:
-            return ('abort', self.exc[0])
+            # which of several reachable abort points is hit first may depend on the
+            # order; the properties only say "aborts with an error"
+            return ('abort',)
         return (self.verdict, _freeze(self.solution), frozenset(self.unimpl),
                 frozenset((k, frozenset(v)) for k, v in self.need_inputs.items()),
                 frozenset((k, frozenset(v)) for k, v in self.blocked.items()),
